@@ -9,6 +9,10 @@
 #include <ompl/base/goals/GoalStates.h>
 #include <ompl/base/goals/GoalRegion.h>
 #include <ompl/base/objectives/PathLengthOptimizationObjective.h>
+#include <ompl/base/objectives/StateCostIntegralObjective.h>
+#include <ompl/base/objectives/MechanicalWorkOptimizationObjective.h>
+#include <ompl/base/objectives/MaximizeMinClearanceObjective.h>
+#include <ompl/base/StateValidityChecker.h>
 #include <ompl/base/spaces/RealVectorStateSpace.h>
 #include <ompl/base/spaces/SE2StateSpace.h>
 #include <ompl/base/spaces/SO2StateSpace.h>
@@ -83,10 +87,12 @@ namespace vw
         double resolution = 0.02;                                     // validity checking resolution (fraction of extent)
         int budget = 60;                                              // termination condition fires at evaluation budget+1
         bool objective = true;
+        std::string objectiveKind = "length";  // length | integral | work | clearance | multi
+        double costThreshold = -1;              // < 0: the objective's default threshold
         std::string json() const
         {
             return "\"planner\":" + vf::jesc(planner) + ",\"map\":" + vf::jesc(map) + ",\"space\":" + vf::jesc(space) + ",\"goal\":" + vf::jesc(goal) + ",\"threshold\":" + vf::jnum(threshold) +
-                   ",\"range\":" + vf::jnum(range) + ",\"resolution\":" + vf::jnum(resolution) + ",\"budget\":" + std::to_string(budget) + ",\"objective\":" + (objective ? "true" : "false");
+                   ",\"range\":" + vf::jnum(range) + ",\"resolution\":" + vf::jnum(resolution) + ",\"budget\":" + std::to_string(budget) + ",\"objective\":" + (objective ? "true" : "false") + ",\"objectiveKind\":" + vf::jesc(objectiveKind) + ",\"costThreshold\":" + vf::jnum(costThreshold);
         }
         static Cfg fromJson(const vf::JV &v)
         {
@@ -100,6 +106,10 @@ namespace vw
             c.resolution = v["resolution"].d();
             c.budget = v["budget"].i();
             c.objective = v["objective"].b;
+            if (v.has("objectiveKind"))
+                c.objectiveKind = v["objectiveKind"].s;
+            if (v.has("costThreshold"))
+                c.costThreshold = v["costThreshold"].d();
             return c;
         }
     };
@@ -340,7 +350,7 @@ namespace vw
             const Lattice *L = &lat;
             space->setStateSamplerAllocator([L](const ob::StateSpace *sp) { return std::make_shared<LatSampler>(sp, *L); });
             si = std::make_shared<ob::SpaceInformation>(space);
-            si->setStateValidityChecker([this](const ob::State *s) { return isValid(s); });
+            si->setStateValidityChecker(std::make_shared<Checker>(si, this));
             si->setStateValidityCheckingResolution(c.resolution);
             if (c.space == "Dubins")
                 si->setMotionValidator(std::make_shared<ob::DubinsMotionValidator>(si));
@@ -372,7 +382,7 @@ namespace vw
                 pdef->setGoal(gr);
             }
             if (c.objective)
-                pdef->setOptimizationObjective(std::make_shared<ob::PathLengthOptimizationObjective>(si));
+                pdef->setOptimizationObjective(makeObjective());
             auto *e = vpl::find(c.planner);
             if (!e)
             {
@@ -385,6 +395,81 @@ namespace vw
             planner->setProblemDefinition(pdef);
             planner->setup();
         }
+        // harness cost field for the state-cost objectives: cheap near the lower edge, expensive near the top
+        struct FieldIntegral : ob::StateCostIntegralObjective
+        {
+            FieldIntegral(const ob::SpaceInformationPtr &si) : ob::StateCostIntegralObjective(si, true)
+            {
+            }
+            ob::Cost stateCost(const ob::State *s) const override
+            {
+                double x, y;
+                xy(si_->getStateSpace().get(), s, x, y);
+                return ob::Cost(1.0 + 0.5 * y + 0.1 * x);
+            }
+        };
+        struct FieldWork : ob::MechanicalWorkOptimizationObjective
+        {
+            FieldWork(const ob::SpaceInformationPtr &si) : ob::MechanicalWorkOptimizationObjective(si)
+            {
+            }
+            ob::Cost stateCost(const ob::State *s) const override
+            {
+                double x, y;
+                xy(si_->getStateSpace().get(), s, x, y);
+                return ob::Cost(0.7 * y + 0.2 * x);
+            }
+        };
+        ob::OptimizationObjectivePtr makeObjective() const
+        {
+            ob::OptimizationObjectivePtr o;
+            const std::string &k = cfg.objectiveKind;
+            if (k == "integral")
+                o = std::make_shared<FieldIntegral>(si);
+            else if (k == "work")
+                o = std::make_shared<FieldWork>(si);
+            else if (k == "clearance")
+                o = std::make_shared<ob::MaximizeMinClearanceObjective>(si);
+            else if (k == "multi")
+            {
+                auto m = std::make_shared<ob::MultiOptimizationObjective>(si);
+                m->addObjective(std::make_shared<ob::PathLengthOptimizationObjective>(si), 1.0);
+                m->addObjective(std::make_shared<FieldIntegral>(si), 0.5);
+                m->lock();
+                o = m;
+            }
+            else
+                o = std::make_shared<ob::PathLengthOptimizationObjective>(si);
+            if (cfg.costThreshold >= 0)
+                o->setCostThreshold(ob::Cost(cfg.costThreshold));
+            return o;
+        }
+        double clearanceOf(const ob::State *s) const
+        {
+            double x, y;
+            xy(space.get(), s, x, y);
+            double best = 1e9;
+            for (int yy = 0; yy < map.H(); ++yy)
+                for (int xx = 0; xx < map.W(); ++xx)
+                    if (!map.free(xx, yy))
+                        best = std::min(best, std::max(std::fabs(x - (xx + 0.5)), std::fabs(y - (yy + 0.5))) - 0.5);
+            return best > 1e8 ? 10.0 : best;
+        }
+        struct Checker : ob::StateValidityChecker
+        {
+            const Problem *P;
+            Checker(const ob::SpaceInformationPtr &si, const Problem *p) : ob::StateValidityChecker(si), P(p)
+            {
+            }
+            bool isValid(const ob::State *s) const override
+            {
+                return P->isValid(s);
+            }
+            double clearance(const ob::State *s) const override
+            {
+                return P->clearanceOf(s);
+            }
+        };
         // a second query on the same space information: different start and goal, none of them a lattice point
         ob::ProblemDefinitionPtr query2()
         {
@@ -395,7 +480,7 @@ namespace vw
             pd->addStartState(s);
             pd->setGoalState(g, cfg.threshold);
             if (cfg.objective)
-                pd->setOptimizationObjective(std::make_shared<ob::PathLengthOptimizationObjective>(si));
+                pd->setOptimizationObjective(makeObjective());
             return pd;
         }
         ob::PlannerStatus solve(int budget)
